@@ -20,7 +20,7 @@ def BOUND(tier):
 
 
 def RULE(tier):
-    return ("every doer forest shape of the tier x every execution with <= %d deviations (config, leaf kind, per-step "
+    return ("" if tier == "quick" else sched.THOROUGH_NOTE + ". ") + ("every doer forest shape of the tier x every execution with <= %d deviations (config, leaf kind, per-step "
             "yield/return/raise/complete-or-fail in enter, limit and start tyme given to the constructor or to do()/ado() over stale constructor values, and which ready asyncio handle runs next while 0..2 competitor "
             "tasks spin on sleep(0)); the run with Doist.do() and the run with Doist.ado() on the virtual loop must give "
             "identical event traces, tymes, done flags, completion cycle and forced exits." % BOUND(tier))
@@ -110,4 +110,4 @@ def _diff(a, b):
     return ("trace-length", "do %d events, ado %d" % (len(a[0]), len(b[0])))
 
 
-run_job, replay = standard(harness, BOUND)
+run_job, replay = standard(harness, BOUND, job_bound=sched.tier_bound)
